@@ -1,19 +1,20 @@
 #!/bin/sh
 # Build the framework from files on disk only (offline).
 set -e
-cd /verif
+V=${VERIF_ROOT:-/verif}; R=${VERIF_REPO:-/repo}
+cd $V
 export GOFLAGS=-mod=mod GOPROXY=off GOSUMDB=off GOTOOLCHAIN=local
 mkdir -p .build coq/Gen coq/Cases evidence replays
-cp /repo/go.sum harness/go.sum
+cp $R/go.sum harness/go.sum
 for d in harness/cmd/*/; do g=$(basename $d)
-  (cd harness && go build -tags verif -o /verif/.build/vh-$g ./cmd/$g) && ./.build/vh-$g gen --repo /repo --out /verif/coq/Gen || echo "setup: group $g failed to build"
+  (cd harness && go build -tags verif -o $V/.build/vh-$g ./cmd/$g) && ./.build/vh-$g gen --repo $R --out $V/coq/Gen || echo "setup: group $g failed to build"
 done
 python3 - <<'PY'
-import sys; sys.path.insert(0,'/verif/tools')
+import sys, os; sys.path.insert(0, os.environ.get('VERIF_ROOT','/verif')+'/tools')
 import check; check.coq_project()
 PY
 # full .vo build; a failure here is reported by the individual checks, so do not abort setup
-(cd coq && timeout 3000 make -j16 -k >/verif/.build/setup_make.log 2>&1) || echo "setup: coq build incomplete (see .build/setup_make.log)"
+(cd coq && timeout 3000 make -j16 -k >$V/.build/setup_make.log 2>&1) || echo "setup: coq build incomplete (see .build/setup_make.log)"
 # hygiene: no axioms / admits / disabled checks in the development
 if grep -rnE '\b(Admitted|admit|Axiom|Parameter|Conjecture|Unset Guard|bypass_check|Admit Obligations)\b' coq/Lib coq/Model coq/Proofs coq/Props --include=*.v; then
   echo "setup: forbidden declaration found"; exit 1; fi
